@@ -881,6 +881,11 @@ func (s *State) extendFunctionEnv(
 		}
 	}
 	if fn.Variadic {
+		// Like the named parameters, the extra arguments are local copies: values, not live references to the caller's variables.
+		extra = slices.Clone(extra)
+		for i := range extra {
+			extra[i] = object.Value(extra[i])
+		}
 		env.SetNoChecks("..", object.NewArray(extra), true)
 	}
 	// Recursion is handle specially in Get (defining "self" and the function name in the env)
